@@ -74,6 +74,14 @@ ASSUMPTIONS = [
     "(NumPy integer scalars and matrix-shaped value arrays are refused or mis-read by the code: input validation, C19)",
 ]
 EXHAUSTIVE = {"quick": False, "thorough": False}
+# functions mirrored by the hand-written model Ops/SptenmatOps.lean (advisory drift detection)
+ANCHORS = [("pyttb/sptenmat.py", "sptenmat.copy"), ("pyttb/sptenmat.py", "sptenmat.__deepcopy__"),
+           ("pyttb/sptenmat.py", "sptenmat.__pos__"), ("pyttb/sptenmat.py", "sptenmat.__neg__"),
+           ("pyttb/sptenmat.py", "sptenmat.__setitem__"), ("pyttb/sptenmat.py", "sptenmat.double"),
+           ("pyttb/sptenmat.py", "sptenmat.full"), ("pyttb/sptenmat.py", "sptenmat.norm"), ("pyttb/sptenmat.py", "sptenmat.nnz"),
+           ("pyttb/sptenmat.py", "sptenmat.isequal"), ("pyttb/sptenmat.py", "sptenmat.to_sptensor"),
+           ("pyttb/sptenmat.py", "sptenmat.shape"), ("pyttb/sptensor.py", "sptensor.copy"),
+           ("pyttb/sptensor.py", "sptensor.__deepcopy__")]
 
 
 # ----------------------------------------------------------------------------
@@ -1767,7 +1775,9 @@ class SptenmatOps(Family):
                                   "the matrix before", st["after"], jval(Dk)))
                 if "ok" not in mk_ or not deep_eq(st["after"], mk_["ok"]):
                     other.append(("corr", f"sptenmat.__setitem__: {where}: stored form differs from the model's", st["after"], mk_))
-            d = [(st["accepted"], sorted_entries(st["after"]["subs"], st["after"]["vals"]),
+            # (a refused request that changed the object is reported above; its debris is not compared across orders)
+            d = [(False, "changed", None) if not st["accepted"] and not deep_eq(st["after"], st["before"]) else
+                 (st["accepted"], sorted_entries(st["after"]["subs"], st["after"]["vals"]),
                   (st["after"]["subs"], st["after"]["vals"]) if ap and klass != "repeat" else None) for st, ap in zip(steps, appended)]
             if first is None:
                 first = d
